@@ -36,6 +36,16 @@ def main():
         env = factory_env_from_data(copy.deepcopy(data))
         for seed in (0, 7):
             print(name, seed, transcript(env, desc['actions'], seed, nsteps))
+    # the same configurations with the STOCHASTIC observation function (no shipped file uses it): observations consume the environment's
+    # generator, so they are part of what must be reproduced across processes, hash seeds and debug settings
+    for name, data, desc in envs.shipped_envs():
+        if not any(k in name for k in ('keydoor.5x5', 'dynamic_obstacles.5x5', 'four_rooms.7x7', 'teleport.5x5', 'memory.5x5')):
+            continue
+        d2 = copy.deepcopy(data)
+        d2['observation_function'] = dict(d2['observation_function'], name='stochastic_raytracing')
+        env = factory_env_from_data(d2)
+        for seed in (0, 11):
+            print(name, 'stochastic-observation', seed, transcript(env, desc['actions'], seed, nsteps))
     # colour SETS built in this process (iteration order depends on the hash seed)
     for k, colors in enumerate(([1, 2, 3, 4], [4, 2], [3, 1, 4])):
         for rname, extra in (('memory', {}), ('memory_rooms', {'layout': (2, 2), 'num_beacons': 2, 'num_exits': 2})):
